@@ -66,7 +66,7 @@ pub fn c07_trio_scn(tier: &str) -> TrioScn {
             roots.push(TrioRoot { label: format!("cw20={}/fees{}", cw, fi), with_cw20: cw, amp: 100, fees: *f, first: [e12, e12, e12], pre_swaps: fi == 0, mid_ramp_to: None });
         }
     }
-    TrioScn { property: "C07".into(), roots, fee_alphabet: vec![crate::checks::c07::PFEES[1], crate::checks::c07::PFEES[2]], probe: Probe::None, with_ramps: false }
+    TrioScn { property: "C07".into(), roots, fee_alphabet: vec![crate::checks::c07::PFEES[1], crate::checks::c07::PFEES[2], crate::checks::c07::PFEES[3]], probe: Probe::None, with_ramps: false }
 }
 
 /// compute_amp_factor (hook) over the full small grid of (initial, target, start, stop, now)
